@@ -21,6 +21,7 @@ written, every tree is first brought to one canonical spelling. Each rewrite is 
   C11 if c: x = a  else: x = b   ->   x = a if c else b      (one plain-name target, single assignments on both sides)
   C12 a temporary bound once to a call and read once, as the only argument of the call in the very next assignment, is inlined:
       t = g(y); x = f(t)   ->   x = f(g(y))
+  C13 a temporary that only names the test of the very next `if` / `while` is inlined:  t = a < b; if t: ...   ->   if a < b: ...
   C7  logging statements (`runLog.debug/extra/info/important/warning/error/header(...)` as a statement) are dropped: no rule
       is about what is logged, and log lines come and go
 """
@@ -221,6 +222,50 @@ class _Canon(ast.NodeTransformer):
     visit_AsyncFunctionDef = generic_visit
 
 
+class _InlineTests(ast.NodeTransformer):
+    """C13 as the very first pass (C11 turns an if/else into an expression; the test has to be in place before that)"""
+
+    def __init__(self):
+        self.fn_stack = []
+
+    @staticmethod
+    def _single(fn, name):
+        loads = [x for x in ast.walk(fn) if isinstance(x, ast.Name) and x.id == name and isinstance(x.ctx, ast.Load)]
+        stores = [x for x in ast.walk(fn) if isinstance(x, ast.Name) and x.id == name and isinstance(x.ctx, (ast.Store, ast.Del))]
+        params = {a.arg for a in fn.args.args + fn.args.kwonlyargs + fn.args.posonlyargs}
+        return len(loads) == 1 and len(stores) == 1 and name not in params
+
+    def _block(self, body, fn):
+        out, i = [], 0
+        while i < len(body):
+            s, nxt = body[i], (body[i + 1] if i + 1 < len(body) else None)
+            if (fn is not None and isinstance(s, ast.Assign) and len(s.targets) == 1 and isinstance(s.targets[0], ast.Name)
+                    and isinstance(nxt, (ast.If, ast.While)) and isinstance(nxt.test, ast.Name) and nxt.test.id == s.targets[0].id and self._single(fn, s.targets[0].id)):
+                nxt.test = s.value
+                i += 1
+                continue
+            out.append(s)
+            i += 1
+        return out
+
+    def generic_visit(self, node):
+        is_fn = isinstance(node, (ast.FunctionDef, ast.AsyncFunctionDef))
+        if is_fn:
+            self.fn_stack.append(node)
+        super().generic_visit(node)
+        fn = self.fn_stack[-1] if self.fn_stack else None
+        for f in ("body", "orelse", "finalbody"):
+            b = getattr(node, f, None)
+            if isinstance(b, list) and b and isinstance(b[0], ast.stmt):
+                setattr(node, f, self._block(b, fn))
+        if is_fn:
+            self.fn_stack.pop()
+        return node
+
+    visit_FunctionDef = generic_visit
+    visit_AsyncFunctionDef = generic_visit
+
+
 class _Flatten(ast.NodeTransformer):
     """C10 as a pass of its own, run before everything else (the other rewrites look at whole function bodies and must see the
     statements where they end up)"""
@@ -240,6 +285,7 @@ class _Flatten(ast.NodeTransformer):
 
 
 def canonicalise(tree: ast.Module) -> ast.Module:
+    tree = _InlineTests().visit(tree)
     tree = _Flatten().visit(tree)
     t = _Canon().visit(tree)
     ast.fix_missing_locations(t)
